@@ -14,6 +14,8 @@ pub assume_specification [OsString::as_os_str] (s: &OsString) -> (r: &OsStr)
     ensures osb(r) == osbs(s);
 pub assume_specification [OsStr::to_os_string] (s: &OsStr) -> (r: OsString)
     ensures osbs(&r) == osb(s);
+pub assume_specification [<OsString as Clone>::clone] (s: &OsString) -> (r: OsString)
+    ensures osbs(&r) == osbs(s);
 pub assume_specification [OsString::new] () -> (r: OsString)
     ensures osbs(&r) == Seq::<u8>::empty();
 
